@@ -27,7 +27,9 @@ KB == {-6, -5, -3, -2, -1, 1, 2, 3, 5, 6}
 DayBumps == {<<"int", k>> : k \in KD} \cup {<<"td", <<k, 0, 0>>>> : k \in KD} \cup {T1(k, "d") : k \in KD}
             \cup {T1(k, "w") : k \in {-2, -1, 1, 2}} \cup {T1(k, "b") : k \in KB}
             \cup {T2(1, "w", -1, "d"), T2(-1, "w", 1, "d"), T2(1, "d", 12, "h"), T2(-1, "d", -12, "h"),
-                  T2(2, "b", 1, "d"), T2(-2, "b", -1, "d"), T2(1, "b", 1, "b"), T3(1, "d", 1, "d", 1, "d")}
+                  T2(2, "b", 1, "d"), T2(-2, "b", -1, "d"), T2(1, "b", 1, "b"), T3(1, "d", 1, "d", 1, "d"),
+                  \* the leading part opposes the net movement: the direction of a bump is where dt_bump moves t0
+                  T2(-1, "d", 1, "w"), T2(1, "d", -1, "w"), T2(-2, "b", 1, "w"), T2(2, "b", -1, "w")}
 DayCases == {<<Midnight(a), Midnight(a + sp), b>> : a \in D0..(D0 + NDay - 1), sp \in (-DSpan)..DSpan, b \in DayBumps}
 
 \* --------------------------------------------------------------------------- intraday family -
@@ -35,7 +37,8 @@ IStarts == {<<D0 + 6, 34200, 0>>, <<D0 + 6, 34200, 250000>>, <<D0 + 7, 86340, 0>
 ISpans  == {-90000, -7200, -3600, -1801, -60, -1, 0, 1, 59, 1800, 3600, 3601, 7200, 90000}
 IBumps  == {T1(k, "h") : k \in {-2, -1, 1, 2}} \cup {T1(k, "n") : k \in {-90, -30, 30, 90}} \cup {T1(k, "s") : k \in {-1800, 1800}}
            \cup {<<"td", x>> : x \in {<<0, 1800, 0>>, <<-1, 84600, 0>>, <<0, 3600, 0>>, <<0, 5400, 500000>>, <<-1, 80999, 500000>>}}
-           \cup {T2(1, "h", 30, "n"), T2(-1, "h", -30, "n"), T2(1, "h", -15, "n")}
+           \cup {T2(1, "h", 30, "n"), T2(-1, "h", -30, "n"), T2(1, "h", -15, "n"),
+                 T2(3, "h", -1, "d"), T2(-3, "h", 1, "d"), T2(-15, "n", 1, "h"), T2(15, "n", -1, "h")}
 FineBumps == {T1(45, "s"), T1(-45, "s"), <<"td", <<0, 0, 400000>>>>, <<"td", <<-1, 86399, 600000>>>>}
 ICases == {<<a, AddDur(a, 0, sp, 0), b>> : a \in IStarts, sp \in ISpans, b \in IBumps}
           \cup {<<a, AddDur(a, 0, sp, 0), b>> : a \in IStarts, sp \in {-61, -2, 0, 3, 200}, b \in FineBumps}
@@ -47,7 +50,8 @@ MJ == {j \in {-36, -25, -24, -13, -12, -7, -3, -2, -1, 0, 1, 2, 3, 7, 12, 13, 24
 MStarts == {OrdOf(y, m, d) : y \in MYears, m \in {1, 2, 12}, d \in {1, 28}} \cup {OrdOf(2000, 3, 15)}
 MBumps  == {T1(k, "m") : k \in {-6, -2, -1, 1, 2, 6}} \cup {T1(k, "q") : k \in {-2, -1, 1, 2}} \cup {T1(k, "y") : k \in {-2, -1, 1, 2}}
            \cup {T2(1, "m", -1, "d"), T2(-1, "m", 1, "d"), T3(1, "y", -3, "m", 2, "d"), T3(-1, "y", 3, "m", -2, "d"),
-                 T2(1, "q", 1, "w"), T2(1, "m", 1, "b")}
+                 T2(1, "q", 1, "w"), T2(1, "m", 1, "b"),
+                 T2(-1, "d", 1, "m"), T2(1, "d", -1, "m"), T2(-1, "w", 1, "q"), T2(1, "w", -1, "q"), T2(-11, "m", 1, "y"), T2(11, "m", -1, "y")}
 MonthCases == {<<Midnight(a), Midnight(AddMonths(a, j) + e), b>> : a \in MStarts, j \in MJ, e \in {-1, 0, 1}, b \in MBumps}
 
 Cases == {x \in DayCases \cup IntraCases \cup MonthCases : CaseInDomain(x[1], x[2], x[3])}
@@ -89,10 +93,38 @@ EveryKthWeekday  == (st = "done" /\ t0 # t1 /\ IsBBump(bump)) =>
                         /\ Len(out) = (Len(W) + k - 1) \div k
                         /\ \A i \in 1..Len(out) : out[i][1] = W[1 + (i - 1) * k]
 
+\* the same list as a function of the arguments alone (recursive: small spans only)
+RECURSIVE Walk(_, _, _, _)
+Walk(x, a, z, b) == IF Within(x, a, z) THEN <<x>> \o Walk(Apply(x, b), a, z, b) ELSE <<>>
+Outcome(a, z, b) == IF a = z THEN <<"ok", <<a>>>>
+                    ELSE IF Dir(a, b) # Toward(a, z) THEN <<"exc", "ValueError">>
+                    ELSE <<"ok", Walk(Start(a, b), a, z, b)>>
+AcceptSeq(a, z, b) == IF SinglePointWeekend(a, z, b) THEN <<Outcome(a, z, b), <<"ok", <<>>>>>> ELSE <<Outcome(a, z, b)>>
+MachineIsFunction == Halted => Outcome(t0, t1, bump) = (IF st = "rejected" THEN <<"exc", "ValueError">> ELSE <<"ok", out>>)
+
 \* -------------------------------------------------------------------------------- generator --
 Emit(r) == PrintT(ToJson([t0 |-> t0, t1 |-> t1, bump |-> bump, accept |-> r]))
 NextGen == \/ Single /\ Emit(IF SinglePointWeekend(t0, t1, bump) THEN << <<"ok", <<t0>>>>, <<"ok", <<>>>> >> ELSE << <<"ok", <<t0>>>> >>)
            \/ RejectBump /\ Emit(<< <<"exc", "ValueError">> >>)
            \/ Step
            \/ Finish /\ Emit(<< <<"ok", out>> >>)
+
+\* --------------------------------------------------------------------------- call histories --
+\* A session of two calls over the same window; in between the caller changes, in place, the list the
+\* first call returned.  The list a call returns is a value of its arguments (Outcome): whatever happened
+\* to earlier results, the second call must return what it would return as a first call.
+HWindows == {<<Midnight(a), Midnight(a + sp)>> : a \in D0..(D0 + 3), sp \in {-9, -4, -1, 0, 1, 2, 5, 9}}
+HFirst   == {<<"int", 1>>, <<"int", -1>>, <<"int", 2>>, <<"td", <<1, 0, 0>>>>, <<"td", <<-1, 0, 0>>>>, T1(1, "d"), T1(1, "b"), T1(-1, "b"), T2(1, "d", 0, "h")}
+HSecond  == {<<"int", k>> : k \in {-7, -2, -1, 1, 2, 3}} \cup {<<"td", <<1, 0, 0>>>>, <<"td", <<-1, 0, 0>>>>, T1(1, "d"), T1(-1, "d"),
+             T1(1, "b"), T1(-1, "b"), T1(2, "b"), T2(1, "d", 0, "h")}
+Mutations == {"append", "pop", "clear", "reverse"}
+InitHist == /\ \E w \in HWindows : t0 = w[1] /\ t1 = w[2]
+            /\ bump \in HFirst /\ cur \in Mutations /\ out \in HSecond /\ st = "run"
+            /\ CaseInDomain(t0, t1, bump) /\ CaseInDomain(t0, t1, out)
+\* (in this generator cur holds the mutation and out the bump of the second call)
+NextHist == /\ st = "run" /\ st' = "done" /\ UNCHANGED <<t0, t1, bump, cur, out>>
+            /\ PrintT(ToJson([t0 |-> t0, t1 |-> t1,
+                              hist |-> << [op |-> "call", bump |-> bump, accept |-> AcceptSeq(t0, t1, bump)],
+                                          [op |-> "mutate_result", how |-> cur],
+                                          [op |-> "call", bump |-> out, accept |-> AcceptSeq(t0, t1, out)] >>]))
 =============================================================================
